@@ -132,6 +132,14 @@ func TestF5OffsetAtNamePosition(t *testing.T) {
 			t.Errorf("%q: ByteOffset=%d, but %q is not a viable JSON prefix (want %d)", in, se.ByteOffset, in[:se.ByteOffset], brace)
 		}
 	}
+	// ReadValue at a name position (as the map arshaler reads keys): a container is lexed first
+	d := jsontext.NewDecoder(bytes.NewReader([]byte(`{{"\x":1}:2}`)))
+	d.ReadToken()
+	_, err := d.ReadValue()
+	var se *jsontext.SyntacticError
+	if !errors.As(err, &se) || se.ByteOffset != 1 {
+		t.Errorf("ReadValue of an object at a name position: %v, want a SyntacticError at offset 1", err)
+	}
 }
 
 // F11 (unmarshal twin of F4): unmarshaling any non-null input into a target that is a
